@@ -195,6 +195,12 @@ def run_unit(unit, work, tier='quick'):
             rc, out, err, _ = sh(['goto-instrument', '--no-malloc-may-fail', '--add-library', os.path.join(d, 'a.gb'), os.path.join(d, 'a.gb')], log=log, timeout=120)
             if rc != 0:
                 raise Undecided('goto-instrument --add-library failed: ' + (err or out)[-600:])
+        if nocontract and 'unwind_complete' in unit:
+            # DFCC needs loops without contract to be unwound before instrumentation
+            us = ','.join('%s.%d:%d' % (fn_, k_ - 1, unit['unwind_complete']) for fn_, k_ in nocontract)
+            rc, out, err, _ = sh(['goto-instrument', '--unwindset', us, '--unwinding-assertions', os.path.join(d, 'a.gb'), os.path.join(d, 'a.gb')], log=log, timeout=120)
+            if rc != 0:
+                raise Undecided('goto-instrument --unwindset failed: ' + (err or out)[-600:])
         gi = ['goto-instrument', '--no-malloc-may-fail', '--dfcc', harness]
         gi += ['--enforce-contract-rec' if unit.get('rec') else '--enforce-contract',
                '%s/%s__contract' % (unit['enforce'], unit['enforce'])]
@@ -209,10 +215,15 @@ def run_unit(unit, work, tier='quick'):
         base = ['cbmc', os.path.join(d, 'b.gb')] + CBMC_FLAGS + unit.get('checks', []) + ['--json-ui', '--trace']
         if nocontract:
             # loops without contract only exist in units that declare an unwinding bound (bounded stand-in)
-            if 'unwind' not in unit:
+            if 'unwind_complete' in unit:
+                # loops with a constant trip count (dimension loops): unwound completely (before DFCC), the unwinding
+                # assertions (part of the obligations) show the bound is not a restriction on inputs
+                res['complete_unwinding'] = 'loops %s unwound %d times with unwinding assertions' % (nocontract, unit['unwind_complete'])
+            elif 'unwind' in unit:
+                base += ['--unwind', str(unit['unwind']), '--unwinding-assertions']
+                res['bounded'] = 'unwind %d' % unit['unwind']
+            else:
                 raise Undecided('loops without contract and no declared unwinding bound: %s' % nocontract)
-            base += ['--unwind', str(unit['unwind']), '--unwinding-assertions']
-            res['bounded'] = 'unwind %d' % unit['unwind']
         base += ['--object-bits', str(unit.get('object_bits', 10))]
         backends = unit.get('backend', ['cadical', 'minisat', 'cvc5'])
         if isinstance(backends, str):
